@@ -331,3 +331,137 @@ Proof.
   split; [rewrite Ho1; reflexivity|].
   rewrite Ho3; [reflexivity | discriminate | discriminate].
 Qed.
+
+(** ---- Link to C03 / C02 / C05 / C08 (Proofs/C14_Wfsrc.v): every model an edit script can reach
+    from the empty model is a well-formed source net [wfsrc], the hypothesis of the end-to-end
+    theorems.  The script guard [script_ok ops = wf_guards [empty_net] ops] checks, at every step,
+    [wf_guard] on the model the step edits ([C14_script_guard]):
+      - [EAddNode]: the state has the shape one of the node constructors produces ([class_state]:
+        Constant / Operation / RandomVariable-Prior / Simulator / Summary / Discrepancy), the name
+        is not one of the reserved instruction-node names [inames], and observed data come only
+        with an observable state (only ObservableMixin takes [observed=]);
+      - [ESetObserved]: the key is an observable node of the edited model;
+      - nothing for add_edge, remove, become, parameter_names, state writes, copy, save/load:
+        become moves the replacement's state AND its observed data and drops the node's own, and a
+        state write never touches [_output] / [_operation] / [_observable].
+    Both guards are needed and can be violated through the public API
+    ([C14_reserved_name_refuted], [C14_set_observed_on_constant_refuted]). *)
+From Elfi Require Import Graph.Denote Proofs.C03_EndToEnd Proofs.C03_Twins Proofs.C14_Wfsrc.
+
+Theorem C14_script_guard :
+  (forall ops, script_ok ops = wf_guards [empty_net] ops)
+  /\ (forall ms o r, wf_guards ms (o :: r) =
+        match nth_error ms (handle_of o) with
+        | None => true
+        | Some m => wf_guard m o && match step ms o with Ok ms' => wf_guards ms' r | Err _ => true end
+        end)
+  /\ (forall m o, wf_guard m o =
+        match o with
+        | EAddNode _ n st _ obs =>
+            class_state st && negb (mem n inames) && match obs with Some _ => s_observable st | None => true end
+        | ESetObserved _ n _ => flag m s_observable n
+        | _ => true
+        end)
+  /\ (forall st, class_state st = true ->
+        (s_observable st = true -> s_output st = None)
+        /\ (s_output st = None -> s_has_op st = true) /\ (s_output st <> None -> s_has_op st = false)).
+Proof.
+  split; [reflexivity|]. split; [reflexivity|]. split; [reflexivity|].
+  intros st H. apply shape_ok_spec, class_state_shape, H.
+Qed.
+Print Assumptions C14_script_guard.
+
+Theorem C14_reachable_models_well_formed :
+  forall ops ms, run [empty_net] ops = Ok ms -> script_ok ops = true -> Forall wfsrc ms.
+Proof. exact reachable_wfsrc. Qed.
+Print Assumptions C14_reachable_models_well_formed.
+
+(** ... so for every script-reachable model, whatever [generate] returns for a node or an observed
+    twin is its user-level dataflow meaning [den_name] (C03's [generate_sound], hypothesis discharged). *)
+Theorem C14_reachable_generate_is_dataflow :
+  forall ops ms m outs W out log,
+    run [empty_net] ops = Ok ms -> script_ok ops = true -> In m ms ->
+    NoDup (map fst W) -> (forall k, In k (map fst W) -> ~ In k inames) ->
+    generate m outs W = Ok (out, log) ->
+    forall o v, In (o, v) out ->
+      (has o (s_nodes m) = true
+       \/ exists x st, lookup x (s_nodes m) = Some st /\ o = observed_name x
+                       /\ (s_observable st = true \/ s_uses_observed st = true)) ->
+      den_name m W o = Some v.
+Proof. exact reachable_generate_sound. Qed.
+Print Assumptions C14_reachable_generate_is_dataflow.
+
+(** the OutputCompiler never rejects a node of a reachable model *)
+Theorem C14_reachable_one_of_output_operation :
+  forall ops ms, run [empty_net] ops = Ok ms -> script_ok ops = true ->
+    Forall (fun m => forall n st, lookup n (s_nodes m) = Some st ->
+                       (s_output st = None -> s_has_op st = true) /\ (s_output st <> None -> s_has_op st = false)) ms.
+Proof. exact reachable_one_of_output_operation. Qed.
+Print Assumptions C14_reachable_one_of_output_operation.
+
+(** the two guards cannot be dropped: [elfi.Constant(1, name='_batch_size')] and
+    [m.observed['c'] = 2] for a constant [c] both succeed and leave [wfsrc] *)
+Theorem C14_reserved_name_refuted :
+  class_state (st_constant (VConst 1)) = true
+  /\ match run [empty_net] [EAddNode 0 "_batch_size" (st_constant (VConst 1)) [] None] with
+     | Ok [m] => wfsrc_b m = false /\ has "_batch_size" (s_nodes m) = true
+     | _ => False
+     end.
+Proof. exact reserved_name_refuted. Qed.
+Print Assumptions C14_reserved_name_refuted.
+
+Theorem C14_set_observed_on_constant_refuted :
+  match run [empty_net] [EAddNode 0 "c" (st_constant (VConst 1)) [] None; ESetObserved 0 "c" (VConst 2)] with
+  | Ok [m] => wfsrc_b m = false /\ consistent_b m = true /\ flag m s_observable "c" = false
+  | _ => False
+  end.
+Proof. exact set_observed_on_constant_refuted. Qed.
+Print Assumptions C14_set_observed_on_constant_refuted.
+
+(** Non-vacuity: prior [t] -> simulator [y] with data -> summary [s] -> discrepancy [d]; a copy; on
+    the copy a new summary [s2] of [y] that [s] then becomes.  The script meets the guard, both
+    live models satisfy [wfsrc_b], and [generate] succeeds on both with the expected value of [d]
+    (the copy's summary operation is [s2]'s, and its observed twin summarises the data 5). *)
+Definition stc (sto obs uo ub par : bool) (id : name) : sstate :=
+  {| s_output := None; s_has_op := true; s_stochastic := sto; s_observable := obs; s_uses_observed := uo;
+     s_uses_batch_size := ub; s_uses_meta := false; s_parameter := par; s_opid := id |}.
+Definition ex_wf_ops : list eop :=
+  [ EAddNode 0 "t" (stc true false false true true "t") [] None;                   (* Prior *)
+    EAddNode 0 "y" (stc true true false true false "y") ["t"] (Some (VConst 5));    (* Simulator, observed=5 *)
+    EAddNode 0 "s" (stc false true false false false "s") ["y"] None;               (* Summary *)
+    EAddNode 0 "d" (stc false false true false false "d") ["s"] None;               (* Discrepancy *)
+    ECopy 0;
+    EAddNode 1 "s2" (stc false true false false false "s2") ["y"] None;
+    EBecome 1 "s" "s2" ].
+Definition ex_wf_d (sname : name) : value :=
+  let rt := [("batch_size", VBatch); ("random_state", VRng)] in
+  VApp (OpUser "d") [VApp (OpUser sname) [VApp (OpUser "y") [VApp (OpUser "t") [] rt] rt] []]
+       [("observed", VApp OpTuple [VApp (OpUser sname) [VConst 5] []] [])].
+Example C14_reachable_example :
+  script_ok ex_wf_ops = true
+  /\ match run [empty_net] ex_wf_ops with
+     | Ok [m0; m1] =>
+         wfsrc_b m0 = true /\ wfsrc_b m1 = true
+         /\ (exists log, generate m0 ["d"] [] = Ok ([("d", ex_wf_d "s")], log))
+         /\ (exists log, generate m1 ["d"] [] = Ok ([("d", ex_wf_d "s2")], log))
+         /\ negb (has "s2" (s_nodes m0)) && negb (has "s2" (s_nodes m1)) = true
+     | _ => False
+     end.
+Proof. vm_compute. repeat split; eexists; reflexivity. Qed.
+Print Assumptions C14_reachable_example.
+
+(** ... and the general theorems apply to it: both models are well formed without computing
+    [wfsrc_b], and the generated value of [d] is its dataflow meaning. *)
+Example C14_reachable_example_applied :
+  forall ms, run [empty_net] ex_wf_ops = Ok ms ->
+    Forall wfsrc ms
+    /\ forall m out log, In m ms -> generate m ["d"] [] = Ok (out, log) ->
+         forall v, In ("d", v) out -> has "d" (s_nodes m) = true -> den_name m [] "d" = Some v.
+Proof.
+  intros ms H.
+  assert (Hg : script_ok ex_wf_ops = true) by (vm_compute; reflexivity).
+  split; [exact (C14_reachable_models_well_formed _ _ H Hg)|].
+  intros m out log Hm Hgen v Hv Hd.
+  apply (C14_reachable_generate_is_dataflow _ _ m ["d"] [] out log H Hg Hm); [constructor | intros k [] | exact Hgen | exact Hv | now left].
+Qed.
+Print Assumptions C14_reachable_example_applied.
